@@ -1,0 +1,30 @@
+//go:build verif
+
+// Contracts for the deductive verifier in /verif (govc). Comment-only.
+
+package influx
+
+//@ # ---- influx line protocol (C16): every line is parsed into a building context that was reset for it. A line can be
+//@ # rejected half way through (bad field, bad timestamp, limits) and the loop goes on with the next line: what the rejected
+//@ # line had added must not reach the row built from the next one (its tags hash - the series identity and the shard -
+//@ # would change, and a row "rejected as a whole" would partly be stored) -----------------------------------------
+//@ # clean: nothing has been added to the row builder since its last Reset (ghost)
+//@ ghost field github.com/lindb/common/series.RowBuilder.clean bool
+//@ extern func github.com/lindb/common/series.RowBuilder.Reset
+//@   modifies self.clean
+//@   ensures self.clean
+//@ end
+//@ extern func bytes.HasPrefix
+//@   modifies nothing
+//@ end
+//@ func parseInfluxLine
+//@   assume
+//@   note the line parser itself is not under contract: it adds name, tags, fields and timestamp of the line to the builder (also when it rejects the line half way)
+//@   requires[a_line_is_parsed_into_a_context_that_was_reset_for_it] builder.clean
+//@   modifies builder.clean
+//@ end
+//@ func Parse
+//@   prop C16
+//@   focus a_line_is_parsed_into_a_context_that_was_reset_for_it
+//@   modifies *
+//@ end
